@@ -231,8 +231,10 @@ impl GFpEchelonBuilder {
                 i += 1;
                 continue;
             }
-            if i + 8 < self.basis.len() {
+            if i + 8 < self.basis.len() && self.p >> 62 == 0 {
                 // Subtract a block of 4 rows at a time (faster)
+                // Only for p < 2^62: the sum of 8 products must stay below 2p * 2^64
+                // for the reduction in submul_n (and below 2^128).
                 let idxs: [usize; 8] = self.indices[i..i + 8].try_into().unwrap();
                 let mut vs = [
                     vp[idxs[0]],
